@@ -196,6 +196,12 @@ func oracleC03(v *fsmView) []vio {
 			}
 			reached := i-t+1 >= limit
 			stoppedHere := rec.StopStep == si
+			if rec.PreFault && stoppedHere && !reached {
+				// storage refused a pre-trigger frame: the recording may be given up early
+				// (the trigger frame is still offered), but the limits still bind from above
+				ended = true
+				break
+			}
 			if reached != stoppedHere {
 				if stoppedHere {
 					out = append(out, vio{"ended-early", fmt.Sprintf("min=%d max=%d", minF, maxF), fmt.Sprintf("recording %d trigger %d ended at frame %d after %d post-trigger frames; last motion %d requires %d", ri, t, i, i-t+1, L, limit)})
@@ -206,6 +212,10 @@ func oracleC03(v *fsmView) []vio {
 			}
 			if stoppedHere {
 				// the frame that completes the limit must itself be in the file
+				if rec.PreFault {
+					ended = true
+					break
+				}
 				if len(rec.Seqs) == 0 || v.acc(rec.Seqs[len(rec.Seqs)-1]) != i {
 					out = append(out, vio{"last-frame-missing", "", fmt.Sprintf("recording %d ended at frame %d but its last written frame is %v", ri, i, rec.Seqs)})
 					return out
@@ -406,8 +416,15 @@ func runFsmCase(c *vCtx, idx int64, prop string, oracle fsmOracle, cfg fsmConfig
 // runFsmCaseFaults: writeFaultPct > 0 makes post-trigger WriteFrame calls fail at that rate
 // (storage hiccups must not change which frames a recording is made of or when it ends).
 func runFsmCaseFaults(c *vCtx, idx int64, prop string, oracle fsmOracle, cfg fsmConfig, evs []fsmEvent, class string, writeFaultPct int) {
+	runFsmCaseFaults2(c, idx, prop, oracle, cfg, evs, class, writeFaultPct, 0)
+}
+
+// runFsmCaseFaults2: preFaultPct > 0 additionally makes WriteFrame calls of the pre-trigger
+// path fail (only C03's oracle has a rule for the recordings given up that way).
+func runFsmCaseFaults2(c *vCtx, idx int64, prop string, oracle fsmOracle, cfg fsmConfig, evs []fsmEvent, class string, writeFaultPct, preFaultPct int) {
 	c.Case(idx, func() interface{} {
 		r := newFsmRun(cfg)
+		r.preFaultPct = preFaultPct
 		r.writeFaultPct, r.stopFaultPct, r.faultRNG = writeFaultPct, writeFaultPct/2, vNewRNG(uint64(idx), 99)
 		for _, e := range evs {
 			r.step(e)
@@ -417,6 +434,7 @@ func runFsmCaseFaults(c *vCtx, idx int64, prop string, oracle fsmOracle, cfg fsm
 			"trace":  traceString(r.steps, 80)}
 	}, func() {
 		r := newFsmRun(cfg)
+		r.preFaultPct = preFaultPct
 		r.writeFaultPct, r.stopFaultPct, r.faultRNG = writeFaultPct, writeFaultPct/2, vNewRNG(uint64(idx), 99)
 		for _, e := range evs {
 			s := r.step(e)
@@ -441,11 +459,25 @@ func runFsmCaseFaults(c *vCtx, idx int64, prop string, oracle fsmOracle, cfg fsm
 		for _, x := range oracle(v) {
 			c.Violation(x.kind, x.class, x.detail)
 		}
+		if preFaultPct > 0 {
+			for ri, rec := range v.recs {
+				if rec.PreFault {
+					c.Count("recordings_with_pre_trigger_write_fault", 1)
+					if ri > 0 {
+						c.Count("pre_trigger_fault_in_a_later_recording", 1)
+					}
+				}
+			}
+		}
 		fsmStats(c, v, r)
 		if len(v.recs) > 0 {
 			c.Nontrivial(vNewHash().Str(cfg.String()).U64(traceHash(r.steps)).Sum())
 			c.Sample(class, func() interface{} {
-				return map[string]interface{}{"config": cfg.String(), "script": scriptString(evs), "trace": traceString(r.steps, 40)}
+				sc := scriptString(evs)
+				if len(sc) > 600 {
+					sc = sc[:600] + fmt.Sprintf("...(%d events)", len(evs))
+				}
+				return map[string]interface{}{"config": cfg.String(), "script": sc, "trace": traceString(r.steps, 40)}
 			})
 		}
 	})
@@ -614,6 +646,8 @@ func TestVerif_FSM(t *testing.T) {
 		evs := fsmRandomScript(rng, cfg, n, rng.Chance(70))
 		if s%5 == 4 {
 			runFsmCaseFaults(c, myIdx, prop, oracle, cfg, evs, "random-script-with-write-faults", rng.PickInt(5, 30, 100))
+		} else if prop == "C03" && s%5 == 3 {
+			runFsmCaseFaults2(c, myIdx, prop, oracle, cfg, evs, "random-script-with-pre-trigger-write-faults", rng.PickInt(0, 5, 30), rng.PickInt(10, 30, 60))
 		} else {
 			runFsmCase(c, myIdx, prop, oracle, cfg, evs, "random-script")
 		}
@@ -655,6 +689,55 @@ func TestVerif_FSM(t *testing.T) {
 						}
 						runFsmCase(c, myIdx, prop, oracle, cfg, evs, "trigger-position-sweep")
 					}
+				}
+			}
+		}
+	}
+
+	// Part 5 (C04 only): very long motion runs during which every start is refused, the
+	// refusal ending at run lengths around the powers of two at which a narrowed run
+	// counter would wrap (2^7, 2^8, 2^15, 2^16): the refused start must still be retried on
+	// the very next motion frame.
+	if prop != "C04" {
+		return
+	}
+	bounds := []int{128, 256, 32768, 65536}
+	if c.N(0, 1) == 0 {
+		bounds = []int{256, 65536}
+	}
+	for _, b := range bounds {
+		for trig := 1; trig <= 3; trig++ {
+			for kind := 0; kind < 3; kind++ {
+				for off := -1; off <= 3; off++ {
+					myIdx := idx
+					idx++
+					if !c.Mine(myIdx) {
+						continue
+					}
+					cfg := fsmConfig{FPS: 9, Preview: 1, Trigger: trig, Min: 1, Max: 2}
+					evs := []fsmEvent{{Kind: evFrame}, {Kind: evFrame}}
+					// run frames 1..b+off-1 refused, run frame b+off is the first with open gates
+					for i := 1; i < b+off; i++ {
+						e := fsmEvent{Kind: evMotion}
+						switch kind {
+						case 0:
+							e.WinClosed = true
+						case 1:
+							e.CheckFail = true
+						default:
+							e.StartFail = true
+						}
+						evs = append(evs, e)
+					}
+					for i := 0; i < 6; i++ {
+						evs = append(evs, fsmEvent{Kind: evMotion})
+					}
+					for i := 0; i < cfg.maxF()+2; i++ {
+						evs = append(evs, fsmEvent{Kind: evFrame})
+					}
+					c.Count("long_refused_runs", 1)
+					c.Max("max:longest_refused_motion_run", int64(b+off-1))
+					runFsmCase(c, myIdx, prop, oracle, cfg, evs, "long-refused-run")
 				}
 			}
 		}
